@@ -18,7 +18,7 @@ ASSUMPTIONS = ['shift invariance is judged on matrices whose entries are all sto
                'no stored logit is exactly 0.0', 'tolerance 1e-9 (float64)']
 N = {'quick': 3000, 'thorough': 100000}
 CLASSES = ['dense', 'dense_peaky', 'sparse_floor', 'onehot', 'transformer', 'bag', 'bag_lm', 'bag_extreme', 'threshold', 'alto_wc', 'tiny_logits', 'alto_word_onehot', 'parser_update', 'long_line', 'window_equals_text', 'merged_confidences', 'alto_uncertain_word']
-REQUIRED = ['second_exports_after_new_logits', 'pages_with_two_character_tables', 'uncertain_words_checked', 'merged_line_confidences_checked', 'page_decoder_thresholds_checked', 'window_equals_text_lines', 'lines_over_1000_frames', 'word_onehot_lines', 'parser_updates', 'tiny_logit_lines', 'repeated_calls_checked', 'bag_history_steps', 'repo_tests_under_contracts', 'line_conf_checked', 'shift_checked', 'onehot_checked', 'letter_conf_checked', 'page_conf_checked', 'bag_checked', 'monotone_checked', 'wc_checked',
+REQUIRED = ['factory_built_page_decoder_thresholds', 'second_exports_after_new_logits', 'pages_with_two_character_tables', 'uncertain_words_checked', 'merged_line_confidences_checked', 'page_decoder_thresholds_checked', 'window_equals_text_lines', 'lines_over_1000_frames', 'word_onehot_lines', 'parser_updates', 'tiny_logit_lines', 'repeated_calls_checked', 'bag_history_steps', 'repo_tests_under_contracts', 'line_conf_checked', 'shift_checked', 'onehot_checked', 'letter_conf_checked', 'page_conf_checked', 'bag_checked', 'monotone_checked', 'wc_checked',
             'contract:get_line_confidence in [0,1], one per label', 'contract:posteriors <= 0 and sum to 1', 'contract:compute_line_confidence in [0,1]']
 TOL = 1e-9
 
@@ -37,6 +37,8 @@ def gen(rng, i, ctx):
         mag = float(rng.choice([1, 50, 700])) if cls == 'bag_extreme' else float(rng.choice([1, 10]))
         vis = [float(-rng.random() * mag) for _ in range(n)]
         lm = None if cls == 'bag' else [float(-rng.random() * 20) for _ in range(n)]
+        if cls == 'bag_lm' and rng.random() < 0.3 and n >= 2:
+            lm[int(rng.integers(0, n))] = None            # a bag in which some hypotheses carry no LM score (hypotheses added by hand to a decoded bag)
         return {'cls': cls, 'vis': vis, 'lm': lm, 'weight': float(rng.choice([0, 0.5, 1, 3]))}
     if cls == 'alto_word_onehot':
         # two words, the second also occurring inside (or equal to) the first; the frames of ONE of them are one-hot, the other's are noisy
@@ -100,13 +102,17 @@ def check_bag(case, mon, ctx):
     b = ctx.BOH(lm_weight=case['weight'])
     for k, v in enumerate(case['vis']):
         b.add('t%d' % k, v, None if case['lm'] is None else case['lm'][k])
+    # LM scores count only when every hypothesis has one (a bag with some missing falls back to the visual scores for all of them)
+    lm_eff = case['lm'] if case['lm'] is not None and all(x is not None for x in case['lm']) else None
+    if case['lm'] is not None and lm_eff is None:
+        mon.count('bags_with_some_lm_scores_missing')
     mon.count('bag_checked')
     if len(case['vis']) > 1:
         mon.mark_nontrivial()
     p = np.asarray(b.posteriors(), dtype=np.float64)
     if abs(np.logaddexp.reduce(p)) > TOL or np.any(p > TOL):
         mon.violation('posteriors-sum-to-1', {'posteriors': p})
-    totals = np.array([v + (case['weight'] * case['lm'][k] if case['lm'] is not None else 0.0) for k, v in enumerate(case['vis'])])
+    totals = np.array([v + (case['weight'] * lm_eff[k] if lm_eff is not None else 0.0) for k, v in enumerate(case['vis'])])
     exp = np.exp(totals - np.logaddexp.reduce(totals))
     if np.abs(np.exp(p) - exp).max() > 1e-9:
         mon.violation('posteriors-from-normalised-scores', {'got': np.exp(p), 'expected': exp})
@@ -122,7 +128,7 @@ def check_bag(case, mon, ctx):
         mon.violation('transcript-confidence', {'note': 'unknown transcript has non-zero confidence'})
     # history on the same long-lived bag: change the (public) LM weight, then add a hypothesis; every query must reflect the current state
     for step, (neww, extra_h) in enumerate(((3.0 if case['weight'] != 3.0 else 0.5, None), (None, ('added', -0.75, None if case['lm'] is None else -1.5)))):
-        vis, lms = list(case['vis']), (None if case['lm'] is None else list(case['lm']))
+        vis, lms = list(case['vis']), (None if lm_eff is None else list(lm_eff))
         if neww is not None:
             b.lm_weight = neww
         wnow = b.lm_weight
@@ -284,6 +290,26 @@ def check(case, mon, ctx):
             except KeyError:
                 kept.append(False)
         mon.count('page_decoder_thresholds_checked', len(ths))
+        # and as a page decoder built from a configuration file (CONFIDENCE_THRESHOLD in the [DECODER] section), incl. thresholds above 1 (nothing is confident enough)
+        import configparser
+        import json as _json
+        import os as _os
+        import torch as _torch
+        ocrj = _os.path.join(ctx.tmpdir, 'thr_ocr_%d.json' % C)
+        if not _os.path.exists(ocrj):
+            _json.dump({'characters': [chr(97 + k) for k in range(C - 1)]}, open(ocrj, 'w'))
+        kept_f, ths_f = [], [t for t in ths if np.isfinite(t)] + [1.5, 50.0, 100.0]
+        ths_f = sorted(ths_f)
+        for t in ths_f:
+            cfg = configparser.ConfigParser()
+            cfg.read_dict({'OCR': {'OCR_JSON': ocrj}, 'DECODER': {'TYPE': 'GREEDY', 'USE_CPU': 'yes', 'CARRY_H_OVER': 'no', 'CONFIDENCE_THRESHOLD': repr(float(t))}})
+            pd = ctx.pp.page_decoder_factory(cfg, _torch.device('cpu'))
+            line.transcription = 'KEPT'
+            kept_f.append(pd.decode_line(line) == 'KEPT' and pd.lines_decoded == 0)
+        mon.count('factory_built_page_decoder_thresholds', len(ths_f))
+        exp_f = [w > t for t in ths_f]
+        if any((not a) and b for a, b in zip(kept_f, kept_f[1:])) or any(a != b and abs(w - t) > 1e-9 for a, b, t in zip(kept_f, exp_f, ths_f)):
+            mon.violation('threshold-monotone', {'via': 'page_decoder_factory (CONFIDENCE_THRESHOLD from the configuration)', 'thresholds': ths_f, 'line_kept': kept_f, 'worst_best_posterior': w})
         if any((not a) and b for a, b in zip(kept, kept[1:])) or any(a != b and abs(w - t) > 1e-9 for a, b, t in zip(kept, exp, ths)):
             mon.violation('threshold-monotone', {'via': 'PageDecoder.decode_line', 'thresholds': ths, 'line_kept': kept, 'worst_best_posterior': w})
 
